@@ -63,3 +63,18 @@ claim("C18", "other",
   "Partial claim, stated plainly: unit norm, non-negativity and fixed-point quality are numerical and NOT decided.",
   "control-dependence with edge polarity + natural-loop analysis + dependence slices of the comparison operands",
   "DESIGN.md section 4, C18 (R-C18-1)")
+claim("C14", "other",
+  "Decides structural necessary conditions of the GraphML round trip: writer/reader vocabulary agreement (element x event kind from MIR constructors vs typed-HIR match arms; attribute names per element; edgedefault literals and polarity; data key = key id), escaping API discipline on both sides, plain f64 Display / parse::<f64> and NaN <=> absent, position-order node output and append-order input, file variant = string variant.",
+  "Partial claim: the round-trip equality itself is NOT decided. Trusted: quick-xml escape/unescape are inverses; Rust's f64 Display/FromStr round-trip; this toolchain's byte-template encoding of format strings (a lone {} is b\"\\xc0\\x00\").",
+  "vocabulary cross-check between MIR-extracted writer tables and typed-HIR reader match arms + generic-argument inspection + control-dependence/edge-deletion rules",
+  "DESIGN.md section 4, C14 (V1-V6)")
+claim("C16", "other",
+  "Decides structural clauses of C16: interval-canonicalised argument validation (p > 0 and p < 1 guard the generator and both kernels), a sibling cross-check of the two skipping kernels on a frozen feature vector confirmed against the published algorithm (carry loop consumes the cursor by subtraction, saturating skip, draw ln(1-U), ...), and complete_graph's construction shape (nodes from 0..n, combinations/permutations tied to directedness).",
+  "Partial claim: the edge distribution, 'every pair can occur' and the karate-club data literal are NOT decided. The sibling rule is a deviance rule armed because each feature was confirmed by reading and by execution during triage.",
+  "comparison-atom interval canonicalisation + sibling feature-vector cross-check over MIR + MUST-DEPEND slices",
+  "DESIGN.md section 4, C16 (R-C16-1..3)")
+claim("C17", "other",
+  "Decides structural clauses of C17 on everything reachable from the seeded entry points: entropy sources only under seed == None and seeded generators built from the payload alone, all rand use through the two factories; every iteration over a randomly-seeded hash container classified by its resolved consumer, with ORDER sites required to be reviewed and consumers of hash-ordered sequences frozen; no rayon/clock/env/pointer input; Louvain node ids from sorted names.",
+  "Partial claim: float sums whose operand order follows hash order (S3) are an explicit assumption (order-independent up to rounding; exact for unweighted graphs), not decided. The second sentence of the property (non-randomised algorithms) is covered only as far as they are reachable from the seeded entry points.",
+  "call-graph scoping + control-dependence on the seed discriminant + hash-order sink classification (type-resolved hasher, consumer classes, sort-after-collect, keyed stores) + reviewed table",
+  "DESIGN.md section 4, C17 (S1-S5)")
